@@ -1319,6 +1319,69 @@ impl<B: Bitmap> GuestRegionMmap<B> {
 
 //@endif
 
+//@if xen
+// ------------------------------------------------------------------ mmap/xen.rs: MmapRegion as VolatileMemory (Xen build)
+// The region hands out slices over its (pseudo-)address; a region that is NOT mapped in advance must give
+// every slice its mapping handle, otherwise the accessors would touch the pseudo-address directly (C17).
+pub struct FileOffset { pub start: u64 }
+pub type MmapXen = MmapInfo;
+impl MmapInfo {
+    /// MmapXen::mmap_in_advance / addr (trusted boundary: flag word and mapping address of the Xen mapping;
+    /// flag validity is K-xenflags' subject, the window arithmetic unit xen's)
+    pub uninterp spec fn s_in_advance(&self) -> bool;
+    pub uninterp spec fn s_addr(&self) -> Ptr;
+    #[verifier::external_body]
+    pub fn mmap_in_advance(&self) -> (r: bool) ensures r == self.s_in_advance() { unimplemented!() }
+    #[verifier::external_body]
+    pub fn addr(&self) -> (r: Ptr) ensures r == self.s_addr() { unimplemented!() }
+}
+//@item src/mmap/xen.rs :: - :: pub struct MmapRegion<B = \(\)> :: pubfields
+//@enditem
+impl<B: Bitmap> MmapRegion<B> {
+    /// what MmapXen::new gives the region (assumed, unsafe root): `size` bytes at addr, mapped now iff in advance
+    pub open spec fn wf(&self) -> bool {
+        self.mmap.s_addr().wf() && self.mmap.s_addr().a + self.size <= self.mmap.s_addr().hi@
+        && (self.mmap.s_in_advance() ==> self.mmap.s_addr().live@)
+    }
+//@fn src/mmap/xen.rs :: impl<B: Bitmap> MmapRegion<B> :: as_ptr :: tags=C01 :: id=xen::MmapRegion::as_ptr
+//@spec
+    ensures r == self.mmap.s_addr(),
+//@end
+//@endfn
+//@fn src/mmap/xen.rs :: impl<B: Bitmap> MmapRegion<B> :: size :: tags=C01 :: id=xen::MmapRegion::size
+//@spec
+    ensures r == self.size,
+//@end
+//@endfn
+}
+
+impl<B: Bitmap> VolatileMemory for MmapRegion<B> {
+    type B = B;
+    open spec fn vm_ptr(&self) -> Ptr { self.mmap.s_addr() }
+    open spec fn vm_len(&self) -> int { self.size as int }
+    open spec fn vm_wf(&self) -> bool { self.wf() }
+    open spec fn vm_mmap_none(&self) -> bool { self.mmap.s_in_advance() }
+    open spec fn vm_exact(&self) -> bool { true }
+    open spec fn vm_sub<'b>(&self, s: &VolatileSlice<'b, B::S>, off: int, count: int) -> bool {
+        s.wf()
+        && s.addr.lo == self.mmap.s_addr().lo && s.addr.hi == self.mmap.s_addr().hi && s.addr.live == self.mmap.s_addr().live
+        && 0 <= off && 0 <= count && off + count <= self.size
+        && s.addr.a == self.mmap.s_addr().a + off && s.size == count
+        && shifted(&s.bitmap, &self.bitmap, off)
+        // the slice carries the mapping handle exactly when the region is not mapped in advance
+        && (s.mmap is None <==> self.mmap.s_in_advance())
+        && (s.mmap is Some ==> s.mmap == Some(&self.mmap))
+    }
+//@fn src/mmap/xen.rs :: impl<B: Bitmap> VolatileMemory for MmapRegion<B> :: len :: tags=C01 :: id=xen::MmapRegion::len
+//@endfn
+//@fn src/mmap/xen.rs :: impl<B: Bitmap> VolatileMemory for MmapRegion<B> :: get_slice :: tags=C01,C05,C07,C17 :: id=xen::MmapRegion::get_slice
+//@sub volatile_memory::Result< => Result<
+//@canary slice_at0 :: self\.bitmap\.slice_at\(offset\) => self.bitmap.slice_at(0)
+//@canary handle_flipped :: if self\.mmap\.mmap_in_advance\(\) => if !self.mmap.mmap_in_advance()
+//@endfn
+}
+//@endif
+
 proof fn canary_false()
     ensures false, // [CANARY]
 {}
